@@ -104,6 +104,24 @@ notes_strength = {
  "agent4-C16": "strengthened: missed at first; symbol cycles and doubling ladders with every round passing through each function, unary operator, parentheses, comparison",
  "agent4-C17": "strengthened: missed at first; failing programs whose unknown name begins several known names (functions, mnemonics, directives, devices, symbols) added to the pool",
  "agent4-C18": "caught as the check stood",
+ "agent5-C01": "caught as the check stood (operand-path slice with definitions inside .dseg, added after round 4)",
+ "agent5-C02": "strengthened: missed at first; once per device-less program a forward .org gap of 0xffff..0x2ffff words in flash",
+ "agent5-C03": "strengthened: missed at first; rjmp/rcall/brne near either end of the flash of one device per power-of-two flash size with the target near the other end (a wrapped displacement would fit), by label and by number, plus in-range controls there",
+ "agent5-C04": "strengthened: missed at first (needs >= 8 operands on a line); operand counts arity+2 .. arity+257 (a count kept in a bit mask or a narrow integer wraps at 8, 16, 32, 64, 256). In the monitors' build the change panics, in the plain release leg it mis-assembles: both reported",
+ "agent5-C05": "strengthened: missed at first; every parse-time expression also stands as an .if condition (branch chosen by value != 0; expressions that must fail - also in an operand that cannot change the value - must fail there too)",
+ "agent5-C06": "strengthened: missed at first; character literals beyond Latin-1 (two-, three- and four-byte code points) as data operands: the value is the code point, which fits the element or does not",
+ "agent5-C07": "caught as the check stood",
+ "agent5-C08": "strengthened: missed at first; per device up to four programs with instructions the device lacks standing in unselected branches only (top level, macro body, body of a macro called by a macro)",
+ "agent5-C09": "strengthened: missed at first; must-fail probes for an omitted argument wherever the use sits (forwarded to an inner macro, .byte in a data/EEPROM segment body, a definition nobody reads, the selected branch, an origin, a condition) and undefined macros called from bodies and data segments",
+ "agent5-C10": "strengthened: missed by C10 at first (C08 needed the same extension); references to names that stand only in unassembled text - a label in an unselected branch, labels in front of the directives of a chain nested in it, `.else` after a taken branch - must fail",
+ "agent5-C11": "strengthened: missed at first; base programs now hold .org in all three segments, in the data and EEPROM segment behind a first item, so that a cut leaves the included file in another segment than it began in and the includer goes on with .org",
+ "agent5-C12": "strengthened: missed by C12 at first (C02 caught it as it stood: backward .org accepted); new fill method 'full, then .org back to the start, then more' for RAM and EEPROM (capacity + 1 must fail however the step back is treated)",
+ "agent5-C13": "strengthened: invisible in the monitors' build (a debug_assert! with a side effect); every monitor now ends with a quick-size leg of itself built with the plain release profile (overflow checks and debug assertions off), which reports under plain-release-build/*",
+ "agent5-C14": "strengthened: missed at first; every third base program ends in reservations sized by a function call or a sum (what they reserve is an open C02 finding, but it must not depend on the spelling)",
+ "agent5-C15": "caught as the check stood (dead-operand fault kinds)",
+ "agent5-C16": "caught as the check stood (character adjacency, added after round 3)",
+ "agent5-C17": "strengthened: missed at first; failing builds with several files open (two files including each other, a cycle entered from outside, a failing line four files deep) added to the pool",
+ "agent5-C18": "caught as the check stood",
 }
 for f in sorted(glob.glob(f"{ROOT}/seeded/*/meta.json")):
     m = json.load(open(f))
